@@ -22,10 +22,10 @@ type SymBytesV struct {         // symbolic-length byte array (object content)
 // overlayRec: bytes [Off, Off+N) of the object equal Src[SrcOff ...] (Src evaluated through its
 // own overlays as they were at copy time), or the single byte Val when Src is nil.
 type overlayRec struct {
-	Off, N  *Term
-	Src     *SymBytesV
-	SrcOff  *Term
-	Val     *Term
+	Off, N *Term
+	Src    *SymBytesV
+	SrcOff *Term
+	Val    *Term
 }
 type PtrV struct {
 	Obj  *Object // nil => nil pointer
@@ -155,20 +155,24 @@ type State struct {
 	trace   []string
 	forks   int
 
-	threads     []*Thread // threads[cur].fr is stale while cur runs (st.fr is live)
-	cur         int
-	blockedNow  bool
-	stuck       int
-	preemptLeft int
-	switchNow   bool
-	syncInt     map[string]int // WaitGroup counters, mutex states, once flags, keyed by object+path
-	pools       map[string][]Value
-	fixedIdx    int               // concrete re-execution: index of the next fixed nondet value
-	parks       map[int]*parkInfo // copy-on-write
-	maxAlloc    *Term             // largest symbolic-size allocation on this path
-	bloom       map[string]*Term  // declared bloom answers, copy-on-write
-	pcMaxVar    int               // largest variable number mentioned by the path condition
-	sawAssert   bool
+	threads      []*Thread // threads[cur].fr is stale while cur runs (st.fr is live)
+	cur          int
+	blockedNow   bool
+	stuck        int
+	preemptLeft  int
+	switchNow    bool
+	syncInt      map[string]int // WaitGroup counters, mutex states, once flags, keyed by object+path
+	pools        map[string][]Value
+	fixedIdx     int               // concrete re-execution: index of the next fixed nondet value
+	parks        map[int]*parkInfo // copy-on-write
+	maxAlloc     *Term             // largest symbolic-size allocation on this path
+	bloom        map[string]*Term  // declared bloom answers, copy-on-write
+	pcMaxVar     int               // largest variable number mentioned by the path condition
+	sawAssert    bool
+	asserts      []string // messages of the vpAssert calls evaluated on this path, in order
+	finished     bool     // the harness function returned (path not cut by an assumption or a violation)
+	randomSelect bool     // a select with several ready cases was executed (Go chooses at random natively)
+	abstract     string   // set when the path took a decision inside a library model the native build cannot be steered to
 }
 
 type Thread struct {
@@ -209,6 +213,9 @@ func (st *State) clone() *State {
 	n.bloom = st.bloom
 	n.pcMaxVar = st.pcMaxVar
 	n.sawAssert = st.sawAssert
+	n.asserts = append([]string(nil), st.asserts...)
+	n.abstract = st.abstract
+	n.randomSelect = st.randomSelect
 	n.preemptLeft = st.preemptLeft
 	n.syncInt = make(map[string]int, len(st.syncInt))
 	for k, v := range st.syncInt {
